@@ -16,3 +16,30 @@ def negate(x):
 
 def identity(x):
     return x
+
+
+def local_sum(block, radii=()):
+    """Shape-preserving stencil: sum over a (2r+1) window along each axis in
+    ``radii`` ([[axis, r], ...]) with edge replication at the block's own edges.
+    Output at i depends only on inputs within r of i (so any overlap depth >= r
+    makes the trimmed result independent of the block structure)."""
+    out = block
+    for ax, r in radii:
+        if r == 0 or block.shape[ax] == 0:
+            continue
+        n = out.shape[ax]
+        acc = np.zeros_like(out)
+        idx = np.arange(n)
+        for k in range(-r, r + 1):
+            acc = acc + np.take(out, np.clip(idx + k, 0, n - 1), axis=ax)
+        out = acc
+    return out
+
+
+def forward_diff(block, axis=0):
+    """x[i+1] - x[i] with the last element repeated (radius-1 stencil)."""
+    n = block.shape[axis]
+    if n == 0:
+        return block
+    idx = np.arange(n)
+    return np.take(block, np.clip(idx + 1, 0, n - 1), axis=axis) - block
